@@ -1,10 +1,18 @@
 import Ivy.L3.PumpProofs
+import Ivy.L3.PumpCacheProofs
 /-!
 # C17 — iv_fd_pump relays the byte stream intact and reports its state truthfully
 
 Property theorems only; helper lemmas live in `Ivy/L3/PumpProofs.lean`.
 All theorems quantify over every state satisfying `Inv` and every event list (every pattern of
 partial reads/writes, EAGAIN, EINTR, EOF, errors), in both transfer modes (`s.splice`).
+
+The single-pump model starts every buffer acquisition from an empty buffer.  The thread-level
+theorems at the end (`cache_clean` … `deinit_no_leak`) discharge that assumption: they are about
+the thread machine of `Ivy/L3/PumpCache.lean` (per-thread buffer cache with the contents of the
+cached buffers, several live pumps, `new`/`pump`/`destroy`/`purge` in any order) and quantify over
+all operation sequences from the initial thread state, `m` = initial `splice_available`
+(`none` = not probed yet, the real initial value).
 -/
 namespace Ivy.Props.C17
 open Ivy.Pump
@@ -64,5 +72,66 @@ theorem run_stream (sp re : Bool) (calls : List (List Ev)) {s rs} (hr : run (St.
 example : (run (St.init false true)
     [[.rdData [1,2,3], .wrN 2], [.rdEintr, .rdEagain, .wrEagain], [.rdData [4], .wrEintr, .wrN 2], [.rdEof]]).map
       (fun p => (p.1.sink, p.1.sawFin, p.2)) = some ([1,2,3,4], 2, [0, 1, 1, 1]) := by decide
+
+/-! ## Thread level: the buffer cache and several pumps on one thread -/
+
+/-- Every buffer in the per-thread cache is empty (a splice-mode pipe that still holds bytes is
+closed, never cached), and the cache never exceeds MAX_CACHED_BUFS. -/
+theorem cache_clean (m : Option Bool) (ops : List Op) {t : Thr} (hr : runT (Thr.init m) ops = some t) :
+    (∀ c, c ∈ t.cache → c = []) ∧ t.cache.length ≤ Ivy.Generated.PUMP_MAX_CACHED_BUFS :=
+  Proofs.cache_clean m ops hr
+
+/-- What the next `buf_get()` returns is an empty buffer; hence, for a pump with nothing buffered,
+the generalised pump call (acquired content in front) is exactly `Ivy.Pump.pump`. -/
+theorem acquire_empty (m : Option Bool) (ops : List Op) {t : Thr} (hr : runT (Thr.init m) ops = some t) :
+    (bufGet t.cache).1 = [] ∧
+      ∀ (s : St) (evs : List Ev), s.buf = [] → pumpWith (bufGet t.cache).1 s evs = pump s evs :=
+  Proofs.acquire_empty m ops hr
+
+/-- Isolation: every live pump on the thread satisfies `Inv` (`src = sink ++ buf` for its own
+source: no byte of another pump's stream ever reaches its sink), whatever other pumps did before
+or in between (including ending with an error while holding data), and runs in the thread's
+transfer mode; no NULL buffer is ever used. -/
+theorem pump_isolation (m : Option Bool) (ops : List Op) {t : Thr} (hr : runT (Thr.init m) ops = some t) :
+    t.fault = false ∧ ∀ k p, (k, p) ∈ t.slots → Inv p.st ∧ t.splice = some p.st.splice :=
+  Proofs.pump_isolation m ops hr
+
+/-- `run_stream` for every pump of the thread: its sink is a prefix of its own source, and equal to
+it when its last pump call returned 0. -/
+theorem thread_stream (m : Option Bool) (ops : List Op) {t : Thr} (hr : runT (Thr.init m) ops = some t) :
+    ∀ k p, (k, p) ∈ t.slots → p.st.sink <+: p.st.src ∧ (p.last = some 0 → p.st.sink = p.st.src) :=
+  Proofs.thread_stream m ops hr
+
+/-- Bookkeeping: buffers in existence (allocated − freed) = live pumps holding one + cached ones. -/
+theorem no_buffer_leak (m : Option Bool) (ops : List Op) {t : Thr} (hr : runT (Thr.init m) ops = some t) :
+    t.allocs = t.frees + held t.slots + t.cache.length :=
+  Proofs.no_buffer_leak m ops hr
+
+/-- Thread deinit: destroying every live pump and then `buf_purge` always succeeds and leaves no
+buffer in existence (every allocation freed), no pump and an empty cache. -/
+theorem deinit_no_leak (m : Option Bool) (ops : List Op) {t : Thr} (hr : runT (Thr.init m) ops = some t) :
+    ∃ t', runT t (t.slots.map (fun kv => Op.destroy kv.1) ++ [Op.purge]) = some t' ∧
+      t'.slots = [] ∧ t'.cache = [] ∧ t'.allocs = t'.frees :=
+  Proofs.deinit_no_leak m ops hr
+
+/-- Non-vacuity: splice mode chosen by the probe (which leaves two empty pipes cached); pump 0 takes
+one, hits a write error with three bytes in its pipe (that pipe is closed, not cached) and is
+destroyed; pump 1 then takes the other cached pipe, relays its own data intact in two partial
+writes and finishes; its pipe goes back to the cache, which is clean; 2 buffers were allocated,
+1 freed, 1 is cached. -/
+example : (runT (Thr.init none)
+    [.new 0 true true, .pump 0 [.rdData [1,2,3], .wrErr], .destroy 0,
+     .new 1 true true, .pump 1 [.rdData [7,8], .wrN 1], .pump 1 [.rdEof, .wrN 1]]).map
+      (fun t => t.slots.map (fun kv => (kv.1, kv.2.st.sink, kv.2.st.src, kv.2.last)) == [(1, [7,8], [7,8], some 0)]
+                && t.cache == [[]] && t.allocs == 2 && t.frees == 1)
+    = some true := by decide
+
+/-- The generalisation is real: from a (not reachable) thread state whose cache holds a pipe with
+stale bytes [1,2,3], the next pump delivers the stale bytes [1,2] instead of its own [7,8], reports
+done, and the pipe goes back to the cache with [3,7,8] in it — what the real code would do. -/
+example : (runT { Thr.init (some true) with cache := [[1,2,3]], allocs := 1 }
+    [.new 1 true true, .pump 1 [.rdData [7,8], .wrN 2], .pump 1 [.rdEof]]).map
+      (fun t => (t.slots.map (fun kv => (kv.2.st.sink, kv.2.st.src, kv.2.last)), t.cache.head?))
+    = some ([([1,2], [7,8], some 0)], some [3,7,8]) := by decide
 
 end Ivy.Props.C17
